@@ -1115,6 +1115,25 @@ fn c14_long_tail_history(rng: &mut Rng, kt: &str) -> History {
     History { kt: kt.into(), cfg: default_bufs(Buckets::Size(1)), keys, ops, origin: format!("c14 long keys differing in their tails, one chain, {kt}") }
 }
 
+/// values of more than 1 MiB that are not valid UTF-8 and have a two-byte character across every multiple of 64 KiB
+/// and of 1 MiB: the string getters must give what `String::from_utf8_lossy` gives for the whole value
+fn c14_long_string_history(kt: &str) -> History {
+    let keys: Vec<Vec<u8>> = (0..5u8).map(|i| if kt == "u64" || kt == "i64" { (i as u64 + 1000).to_le_bytes().to_vec() } else if kt == "vu64" { vec![i + 1] } else { format!("text{i}").into_bytes() }).collect();
+    let lens = [1_048_586u32, 2_097_155, 70_000, 3_145_800, 65_537];
+    let mut ops = Vec::new();
+    for (k, &l) in lens.iter().enumerate() {
+        ops.push(Op::Put(k, ValSpec { len: l, seed: k as u32, kind: 3 }));
+    }
+    for k in 0..5 {
+        ops.push(Op::GetStr(k));
+    }
+    ops.push(Op::BulkGetStr(vec![3, 0, 4, 1, 2]));
+    ops.push(Op::DelStr(3));
+    ops.push(Op::BulkDelStr(vec![1, 0]));
+    ops.push(Op::BulkGetStr(vec![0, 1, 2, 3, 4]));
+    History { kt: kt.into(), cfg: default_bufs(Buckets::Size(8)), keys, ops, origin: format!("c14 long values that are not valid UTF-8 through the string getters, {kt}") }
+}
+
 pub fn c14(a: &Args) -> Ctx {
     let mut ctx = Ctx::new("C14", &["C14"], &a.replay_dir, &a.shard_name());
     let ed = edges();
@@ -1127,6 +1146,13 @@ pub fn c14(a: &Args) -> Ctx {
         ctx.count("exact_fit_chain_histories", 1);
         let mon = Mon { final_sweep: true, ..Default::default() };
         if run_and_record(a, &h, &mon, &mut ctx, "xf") {
+            return ctx;
+        }
+    }
+    if a.shard % 5 == 0 {
+        let h = c14_long_string_history(KT_NAMES[(a.shard / 5) % 5]);
+        ctx.count("long_string_histories", 1);
+        if run_and_record(a, &h, &Mon::default(), &mut ctx, "ls") {
             return ctx;
         }
     }
